@@ -178,6 +178,9 @@ pub fn name_sel(w_invalid: u32) -> impl Strategy<Value = NameSel> {
         6 => any::<u8>().prop_map(NameSel::Pool),
         2 => any::<u16>().prop_map(NameSel::Deleted),
         w_invalid => any::<u8>().prop_map(NameSel::Invalid),
+        // the dot names: directories in every sub-directory, absent from a root
+        1 => Just(NameSel::Dot),
+        1 => Just(NameSel::DotDot),
     ]
 }
 
